@@ -49,6 +49,8 @@ var (
 	cNotModelled  = simrt.RegisterCounter("probe_block_not_judged_by_device_model")
 	cSubBand      = simrt.RegisterCounter("op_sub_band_configuration")
 	cSharedBand   = simrt.RegisterCounter("op_shared_band_with_concurrent_planners")
+	cReuseBuf     = simrt.RegisterCounter("fault_caller_reuses_its_device_list_buffer")
+	cScribble     = simrt.RegisterCounter("fault_caller_overwrites_a_plan_it_was_handed")
 	cPlaceholder  = simrt.RegisterCounter("op_add_placeholder_slot_frequency_0")
 	cFreshChanged = simrt.RegisterCounter("probe_fresh_config_differs_after_run")
 	cNotConverged = simrt.RegisterCounter("probe_not_converged_after_faults")
@@ -76,15 +78,18 @@ type msg struct {
 }
 
 type world struct {
-	name   string
-	b      band.Band
-	m      *spec.Plan
-	sess   pipe.Session
-	down   *sim.Mailbox
-	up     *sim.Mailbox
-	maxIdx int
-	deflt  []int
-	faults bool
+	shared  bool     // several tasks plan on this band at the same time
+	devBuf  [256]int // the caller's device-list buffer, re-used from call to call (single-owner runs)
+	lastPls []lorawan.LinkADRReqPayload
+	name    string
+	b       band.Band
+	m       *spec.Plan
+	sess    pipe.Session
+	down    *sim.Mailbox
+	up      *sim.Mailbox
+	maxIdx  int
+	deflt   []int
+	faults  bool
 }
 
 func build(sw *sim.World) {
@@ -132,6 +137,7 @@ func build(sw *sim.World) {
 		for k := 0; k < nOps; k++ {
 			w.bandOp(r)
 		}
+		w.shared = true
 		n := 2 + simrt.Choose(3)
 		sw.Notef("W-ADR (shared band): %s repeater=%v dwell=%d, %d operations before %d concurrent planners", w.name, rep, dt, nOps, n)
 		simrt.Count(cSharedBand)
@@ -293,17 +299,42 @@ func toSpec(pls []lorawan.LinkADRReqPayload) []spec.LinkADR {
 // returns the payloads.
 func (w *world) judge(dev []int, label string) []lorawan.LinkADRReqPayload {
 	simrt.Count(cSets)
-	simrt.Progress()
+	sim.Op()
+	// what the caller hands in is the caller's: in single-owner runs the
+	// device list lives in ONE buffer that the next call overwrites (a request
+	// loop with a scratch slice), and the plan handed out by the previous call
+	// has been scribbled over by then. The band must have kept neither.
+	arg := dev
+	if !w.shared && len(dev) <= len(w.devBuf) {
+		simrt.Count(cReuseBuf)
+		arg = w.devBuf[:len(dev)]
+		ownerWriteCopy(arg, dev)
+		if w.lastPls != nil {
+			simrt.Count(cScribble)
+			ownerWritePlan(w.lastPls)
+			w.lastPls = nil
+		}
+	}
 	var pls []lorawan.LinkADRReqPayload
-	if sim.Guard("panic.plan", func() { pls = w.b.GetLinkADRReqPayloadsForEnabledUplinkChannelIndices(dev) }) {
+	if sim.Guard("panic.plan", func() { pls = w.b.GetLinkADRReqPayloadsForEnabledUplinkChannelIndices(arg) }) {
 		return nil
+	}
+	if !spec.EqualInts(arg, dev) {
+		simrt.Report("a1.input-modified:"+w.name, fmt.Sprintf("%s (%s): the planner changed the device list it was given from %v to %v", w.name, label, dev, arg))
+		ownerWriteCopy(arg, dev)
 	}
 	target := w.m.Target(dev)
 	// A1: the band's own apply function
 	var got []int
 	var err error
-	if sim.Guard("panic.apply", func() { got, err = w.b.GetEnabledUplinkChannelIndicesForLinkADRReqPayloads(dev, pls) }) {
+	if sim.Guard("panic.apply", func() { got, err = w.b.GetEnabledUplinkChannelIndicesForLinkADRReqPayloads(arg, pls) }) {
 		return pls
+	}
+	if !w.shared {
+		// (the caller keeps a private copy for its own use and will scribble
+		// over the slice it was handed before the next call)
+		w.lastPls = pls
+		pls = append([]lorawan.LinkADRReqPayload(nil), pls...)
 	}
 	if got == nil {
 		got = []int{}
@@ -367,6 +398,19 @@ func (w *world) judge(dev []int, label string) []lorawan.LinkADRReqPayload {
 		}
 	}
 	return pls
+}
+
+// ownerWrite*: writes a caller is entitled to make to memory it owns (its
+// device-list buffer, a plan it was handed).
+func ownerWriteCopy(dst, src []int) { copy(dst, src) }
+
+func ownerWritePlan(pls []lorawan.LinkADRReqPayload) {
+	pls = pls[:cap(pls)]
+	for i := range pls {
+		pls[i].ChMask = lorawan.ChMask{true, false, true}
+		pls[i].Redundancy.ChMaskCntl = 5
+		pls[i].DataRate = 9
+	}
 }
 
 func sortInts(a []int) {
